@@ -13,6 +13,7 @@
    lanes, tags or offsets. *)
 From Coq Require Import List Arith Lia Bool PeanoNat.
 Import ListNotations.
+Set Implicit Arguments.
 
 (* index/common.hpp: enum SIMD.  [PAD k] is static_cast<SIMD>(k), 1 <= k <= N-1 *)
 Inductive tag := PACKED | BROADCAST | SCALAR | PAD (k : nat) | ACCUMULATE | ACCUMULATE_PACKED | NOP.
@@ -407,4 +408,4 @@ Definition colmajor2 (d : A) (rows cols : nat) (l : list A) : list A :=
 
 End Simd.
 
-Arguments Done {A}. Arguments Refused {A}. Arguments Undefined {A}.
+Arguments Refused {A}. Arguments Undefined {A}.
